@@ -1015,4 +1015,55 @@ v("cancel-through-running-and-cancelled-view", [(P, IS_FULL_PROP, "    @property
                                                 (P, CANCEL_LOOKUP, "                self._tasks_live[group_reg.pop()].cancel(**cancel_kw)\n")], {"C03": "R03.8"})
 v("cancel-through-union-of-running-and-ended", [(P, CANCEL_LOOKUP, "                (self._tasks_running | self._tasks_ended)[group_reg.pop()].cancel(**cancel_kw)\n")], {"C03": "R03.8"})
 
+# batch 11 / round 10 mechanisms: walrus-filtered name generator, option-table method, map() look-ups, collected generator,
+# conversion sites (R17.11), executable commands (R16.5)
+GEN_LOOP = """        i = 0
+        while True:
+            name = f"{base_name}-{i}"
+            if name not in self._task_groups:
+                return name
+            i += 1
+"""
+IMPORT_CHAIN = ("from math import inf\n", "from itertools import count\nfrom math import inf\n")
+v("P-name-generator-next-with-walrus", [(P, IMPORT_CHAIN[0], IMPORT_CHAIN[1]), (P, GEN_LOOP, '        return next(\n            name\n            for i in count()\n            if (name := f"{base_name}-{i}") not in self._task_groups\n        )\n')], {"C10": "ok"})
+v("name-generator-walrus-returns-taken-name", [(P, IMPORT_CHAIN[0], IMPORT_CHAIN[1]), (P, GEN_LOOP, '        return next(\n            name\n            for i in count()\n            if (name := f"{base_name}-{i}") in self._task_groups\n        )\n')], {"C10": "R10.3"})
+v("name-generator-walrus-wrong-pattern", [(P, IMPORT_CHAIN[0], IMPORT_CHAIN[1]), (P, GEN_LOOP, '        return next(\n            name\n            for i in count()\n            if (name := f"{base_name}_{i}") not in self._task_groups\n        )\n')], {"C10": "R10.3"})
+START_NUM_CALL = """                await self._start_task(
+                    coroutine,
+                    group_name=group_name,
+                    end_callback=self._end_callback,
+                    cancel_callback=self._cancel_callback,
+                )
+"""
+OPTS = '    def _task_options(self, group_name: str) -> Dict[str, Any]:\n        return {\n            "group_name": group_name,\n            "end_callback": self._end_callback,\n            "cancel_callback": self._cancel_callback,\n        }\n\n'
+START_NUM_DEF = "    async def _start_num(self, num: int, group_name: str) -> None:\n"
+v("P-start-num-option-table", [(P, START_NUM_DEF, OPTS + START_NUM_DEF), (P, START_NUM_CALL, "                await self._start_task(\n                    coroutine, **self._task_options(group_name)\n                )\n")], {"C04": "ok", "C10": "ok", "C03": "ok", "C14": "ok"})
+v("start-num-option-table-locks", [(P, START_NUM_DEF, OPTS.replace('"group_name": group_name,', '"group_name": group_name,\n            "ignore_lock": False,') + START_NUM_DEF),
+                                   (P, START_NUM_CALL, "                await self._start_task(\n                    coroutine, **self._task_options(group_name)\n                )\n")], {"C04": "R04.2"})
+v("start-num-option-table-swaps-callbacks", [(P, START_NUM_DEF, OPTS.replace('"end_callback": self._end_callback', '"end_callback": self._cancel_callback').replace('"cancel_callback": self._cancel_callback', '"cancel_callback": self._end_callback') + START_NUM_DEF),
+                                             (P, START_NUM_CALL, "                await self._start_task(\n                    coroutine, **self._task_options(group_name)\n                )\n")], {"C03": "viol"})
+LOOKUPS = "        tasks = [self._get_running_task(task_id) for task_id in task_ids]\n"
+v("P-cancel-lookups-list-map", [(P, LOOKUPS, "        tasks = list(map(self._get_running_task, task_ids))\n")], {"C06": "ok", "C03": "ok", "C14": "ok"})
+v("cancel-lookups-map-of-plain-get", [(P, LOOKUPS, "        tasks = list(map(self._tasks_running.get, task_ids))\n")], {"C06": "viol"})
+v("cancel-lookups-lazy-map", [(P, LOOKUPS, "        tasks = map(self._get_running_task, task_ids)\n")], {"C06": "viol"})
+STOP_LOOP = """        ids = []
+        for i, task_id in enumerate(reversed(self._tasks_running)):
+            if i >= num:
+                # We got the desired number of task IDs,
+                # there may well be more tasks left to keep running
+                break
+            ids.append(task_id)
+"""
+STOP_DEF = "    def stop(self, num: int) -> List[int]:\n"
+NEWEST = "    def _newest_task_ids(self, num: int) -> Any:\n        for idx, task_id in enumerate(reversed(self._tasks_running)):\n            if idx >= num:\n                return\n            yield task_id\n\n"
+v("P-stop-collects-generator", [(P, STOP_DEF, NEWEST + STOP_DEF), (P, STOP_LOOP, "        ids = list(self._newest_task_ids(num))\n")], {"C14": "ok", "C06": "ok"})
+v("stop-collects-generator-one-too-many", [(P, STOP_DEF, NEWEST.replace("idx >= num", "idx > num") + STOP_DEF), (P, STOP_LOOP, "        ids = list(self._newest_task_ids(num))\n")], {"C14": "R14.1"})
+v("stop-collects-generator-oldest-first", [(P, STOP_DEF, NEWEST.replace("reversed(self._tasks_running)", "self._tasks_running") + STOP_DEF), (P, STOP_LOOP, "        ids = list(self._newest_task_ids(num))\n")], {"C14": "R14.1"})
+SUBP = "        self._commands = cast(\n            _CanAddControlParser, super().add_subparsers(*args, **kwargs)\n        )\n        return self._commands\n"
+v("subparsers-action-type-lower", [(PARSER, SUBP, "        action = super().add_subparsers(*args, **kwargs)\n        action.type = str.lower\n        self._commands = cast(_CanAddControlParser, action)\n        return self._commands\n")], {"C17": "R17.11"})
+v("subparsers-created-with-type", [(SESS, '            title="Commands",\n', '            title="Commands",\n            type=str.lower,\n')], {"C17": "R17.11"})
+v("converter-from-other-attribute", [(PARSER, '                "type", _get_type_from_annotation(parameter.annotation)\n', '                "type", _get_type_from_annotation(parameter.default)\n')], {"C17": "R17.11"})
+v("P-converter-through-local", [(PARSER, '            kwargs.setdefault(\n                "type", _get_type_from_annotation(parameter.annotation)\n            )\n', '            arg_type = _get_type_from_annotation(parameter.annotation)\n            kwargs.setdefault("type", arg_type)\n')], {"C17": "ok", "C16": "ok"})
+v("positional-dest-dashed", [(PARSER, "            name_or_flags = [parameter.name]\n", '            name_or_flags = [parameter.name.replace("_", "-")]\n')], {"C16": "R16.5", "C17": "R17.3"})
+
 VARIANTS = V
